@@ -6,6 +6,7 @@
 #include "adapters/tools.hpp"
 #include "common/listing.hpp"
 #ifdef HEXMC_C17
+#include "common/xgen.hpp"
 #define PROP "C17"
 #else
 #define PROP "C05"
@@ -214,10 +215,40 @@ int main(int argc, char **argv) {
     }
     rep.st.merge(st);
   }
+#ifdef HEXMC_C17
+  // ---- X programs: xcmp -S listing versus the binary xcmp emits for the same source
+  if (!ctx.expired()) {
+    xgen::Corpus XC; XC.build(ctx.thorough());
+    std::vector<std::string> shippedX; for (const char *n : {"bubblesort.x", "div.x", "exp2.x", "fac.x", "fib.x", "hello_prints.x", "hello_putval.x", "mul.x", "mul2.x", "printhex.x", "printn.x", "strlen.x", "xhexb.x", "echo_char.x", "exit.x"}) shippedX.push_back(n);
+    uint64_t totalX = XC.total + shippedX.size();
+    phase(ctx, "X programs: " + std::to_string(totalX));
+    auto body = [&](uint64_t b, uint64_t e, const std::set<uint64_t> &skip, Stats &st, volatile uint64_t *cur) {
+      std::string out = ctx.scratch + "/c17x." + std::to_string(getpid()) + ".bin";
+      for (uint64_t i = b; i < e; i++) {
+        *cur = i; if (skip.count(i)) continue;
+        if (ctx.expired()) { st.add("x_programs_skipped_deadline"); continue; }
+        std::string fam, shape, src;
+        if (i < shippedX.size()) { fam = "shipped:" + shippedX[i]; src = slurp(ctx.repo + "/tests/x/" + shippedX[i]); } else src = XC.make(i - shippedX.size(), &shape, &fam);
+        auto l = ad::xcompile(src, ad::X_ASM, out); auto bn = ad::xcompile(src, ad::X_BINARY, out);
+        st.add("x_programs");
+        if (l.status != 0 || bn.status != 0) { st.add("x_programs_rejected"); continue; }
+        auto img = refisa::parseImage(slurp(out));
+        std::string what = img.wellFormed ? listing::checkAgainstImage(l.out, img.body) : "emitted binary is not a well-formed image";
+        if (!what.empty()) st.violation("listing:x:" + listing::classOf(what) + ":" + fam.substr(0, fam.find(':', 3) == std::string::npos ? fam.size() : fam.find(':', 3)), i, Obj().kv("family", fam).kv("source", src.substr(0, 3000)).kv("what", what).str());
+        else { st.add("x_programs_accepted"); st.add("listing_lines", std::count(l.out.begin(), l.out.end(), '\n')); }
+        if (i % 20011 == 0) st.sample(Obj().kv("family", fam).kv("source", src.substr(0, 300)).str(), 3);
+      }
+      unlink(out.c_str());
+    };
+    auto r = run_chunks(ctx, "x", totalX, 1024, body, [&](uint64_t i) { return Obj().kv("family", "x").kv("index", i).str(); }, 120);
+    rep.st.merge(r.stats);
+    if (!r.complete || rep.st.c["x_programs_skipped_deadline"]) rep.caps.push_back("X programs: deadline");
+  }
+#endif
   auto &c = rep.st.c;
-  rep.evaluations = c["programs"] + c["shipped_files"];
+  rep.evaluations = c["programs"] + c["shipped_files"] + c["x_programs"];
   rep.states = rep.evaluations; rep.transitions = c["refs_checked"] + c["listing_lines"] + rep.evaluations; rep.validated = c["accepted"];
-  rep.nontrivial = c["accepted"];
+  rep.nontrivial = c["accepted"] + c["x_programs_accepted"];
   rep.rule = "programs = every sequence of <=N structural items over {label def, PROC, relative ref (BR), absolute ref (LDAC), DATA} with canonical label numbering, every "
              "referenced label defined once and every defined label referenced, x every assignment of boundary-straddling filler sizes to the gaps; plus a distance sweep for all 12 "
              "label-taking mnemonics in both directions and the shipped .S files; distinct by construction; non-trivial = accepted by the assembler and walked end to end";
